@@ -118,4 +118,14 @@ def collectWrapper : List String :=
    "sub := subscribe(ctx, observer(append value; store error and ctx; store ctx))", "wait",
    "return values, lastCtx, err"]
 
+/-- subscriber.go:117-139 `newSubscriberImpl`: a destination that already is a Subscriber is returned AS IT IS — so one
+    observer wrapped once (by the caller, or by the downstream operator) has one status word however often and to whatever it
+    is attached, and the mode that serializes a pipeline stage is the mode of the subscriber that was created first
+    (property C02's reuse clause; the gate of `RoModel/ObsShared.lean`); otherwise a fresh subscriber (status 0, the mutex and
+    backpressure of the requested mode, its own subscription) is allocated and, when the destination has a subscription of its
+    own, linked to it -/
+def subscriberCtor : List String :=
+  ["reuse a destination that is a Subscriber", "alloc Subscription backpressure destination mode mu status",
+   "link the destination's subscription", "return"]
+
 end Ro.Kernel.Expected
